@@ -430,8 +430,10 @@ class Sites:
                             c = self._classify_collection(self.infos[tname], rets[0], 'self')
                             return c, note + f'  [{tname}.{fn.attr}: {ast.unparse(rets[0])[:60]}]'
                 return 'unknown', note
-            if isinstance(fn, ast.Name) and fn.id in SHALLOW_CALLS and len(e.args) == 1:
-                inner = e.args[0]
+            if isinstance(fn, ast.Name) and (fn.id in SHALLOW_CALLS and len(e.args) == 1
+                                             or fn.id in ('Array', 'array') and len(e.args) == 2
+                                             and isinstance(e.args[0], ast.Constant)):
+                inner = e.args[-1]
                 if _self_attr(inner, src) == f or (isinstance(inner, ast.Call) and isinstance(inner.func, ast.Attribute)
                                                    and inner.func.attr in ('values', 'items', 'keys')
                                                    and _self_attr(inner.func.value, src) == f):
